@@ -44,24 +44,31 @@ fn shift_count(count: i64) -> Result<u32, Box<dyn error::Error>> {
     }
 }
 
-fn gcd(expr1: i64, expr2: i64) -> i64 {
-    let mut a = expr1;
-    let mut b = expr2;
+fn gcd_magnitude(expr1: i64, expr2: i64) -> u64 {
+    let mut a = expr1.unsigned_abs();
+    let mut b = expr2.unsigned_abs();
     while b != 0 {
         #[cfg(feature = "verif_hooks")]
         crate::verif_hooks::tick(3);
         let remainder = a % b;
-        a = expr2;
+        a = b;
         b = remainder;
     }
-    a.abs()
+    a
 }
 
-fn lcm(expr1: i64, expr2: i64) -> i64 {
+fn gcd(expr1: i64, expr2: i64) -> Result<i64, Box<dyn error::Error>> {
+    i64::try_from(gcd_magnitude(expr1, expr2)).map_err(|_| overflow())
+}
+
+fn lcm(expr1: i64, expr2: i64) -> Result<i64, Box<dyn error::Error>> {
     if expr1 == 0 || expr2 == 0 {
-        return 0;
+        return Ok(0);
     }
-    (expr1 / gcd(expr1, expr2) * expr2).abs()
+    let multiple = (expr1.unsigned_abs() / gcd_magnitude(expr1, expr2))
+        .checked_mul(expr2.unsigned_abs())
+        .ok_or_else(overflow)?;
+    i64::try_from(multiple).map_err(|_| overflow())
 }
 
 pub fn eval(expr: Node) -> Result<i64, Box<dyn error::Error>> {
@@ -174,14 +181,15 @@ pub fn eval(expr: Node) -> Result<i64, Box<dyn error::Error>> {
                 let mut result: Option<i64> = None;
                 for arg in <Vec<Node> as Clone>::clone(&args).into_iter() {
                     let right_art = eval(arg)?;
-                    result = result
-                        .map(|left_arg| Some(gcd(left_arg, right_art)))
-                        .unwrap_or(Some(right_art));
+                    result = match result {
+                        Some(left_arg) => Some(gcd(left_arg, right_art)?),
+                        None => Some(gcd(right_art, 0)?),
+                    };
                 }
                 Ok(result.unwrap())
             } else {
                 match args.first() {
-                    Some(arg) => Ok(eval((*arg).clone())?),
+                    Some(arg) => gcd(eval((*arg).clone())?, 0),
                     None => Ok(0),
                 }
             }
@@ -191,23 +199,24 @@ pub fn eval(expr: Node) -> Result<i64, Box<dyn error::Error>> {
                 let mut result: Option<i64> = None;
                 for arg in <Vec<Node> as Clone>::clone(&args).into_iter() {
                     let right_art = eval(arg)?;
-                    result = result
-                        .map(|left_arg| Some(lcm(left_arg, right_art)))
-                        .unwrap_or(Some(right_art));
+                    result = match result {
+                        Some(left_arg) => Some(lcm(left_arg, right_art)?),
+                        None => Some(lcm(right_art, 1)?),
+                    };
                 }
                 Ok(result.unwrap())
             } else {
                 match args.first() {
-                    Some(arg) => Ok(eval((*arg).clone())?),
+                    Some(arg) => lcm(eval((*arg).clone())?, 1),
                     None => Ok(0),
                 }
             }
         }
         Min(args) => {
             if args.len() > 1 {
-                let mut result = i64::MIN;
+                let mut result = i64::MAX;
                 for arg in <Vec<Node> as Clone>::clone(&args).into_iter() {
-                    result = eval(arg).unwrap().min(result);
+                    result = eval(arg)?.min(result);
                 }
                 Ok(result)
             } else {
@@ -219,9 +228,9 @@ pub fn eval(expr: Node) -> Result<i64, Box<dyn error::Error>> {
         }
         Max(args) => {
             if args.len() > 1 {
-                let mut result = i64::MAX;
+                let mut result = i64::MIN;
                 for arg in <Vec<Node> as Clone>::clone(&args).into_iter() {
-                    result = eval(arg).unwrap().max(result);
+                    result = eval(arg)?.max(result);
                 }
                 Ok(result)
             } else {
@@ -232,22 +241,22 @@ pub fn eval(expr: Node) -> Result<i64, Box<dyn error::Error>> {
             }
         }
         Avg(args) => {
-            let mut result = 0;
+            let mut result: i128 = 0;
             for arg in <Vec<Node> as Clone>::clone(&args).into_iter() {
-                result += eval(arg).unwrap();
+                result += eval(arg)? as i128;
             }
-            let len = args.len() as i64;
-            Ok(result / len)
+            let len = args.len() as i128;
+            Ok((result / len) as i64)
         }
         Med(args) => {
             let mut results = vec![];
             for arg in <Vec<Node> as Clone>::clone(&args).into_iter() {
-                results.push(eval(arg).unwrap());
+                results.push(eval(arg)?);
             }
             results.sort_by(|a, b| a.partial_cmp(b).unwrap());
             let len = results.len();
             if len % 2 == 0 {
-                Ok((results[len >> 1] + results[(len >> 1) - 1]) / 2)
+                Ok(((results[len >> 1] as i128 + results[(len >> 1) - 1] as i128) / 2) as i64)
             } else {
                 Ok(results[len >> 1])
             }
